@@ -65,5 +65,18 @@ def mul_groups(tier, props=("C01", "C09", "C10", "C11", "C12")):
     return gs
 
 
+def djb_groups(tier, props=("C01",)):
+    gs = []
+    # measured: out of memory (16 GB) already at 2x3 / 3x3 -- the instruction stream makes every row access a symbolic-index access;
+    # kept as a thorough-tier attempt only, DJB is listed as not decided
+    for m, l, n in (((2, 2, 10), (2, 3, 70)) if tier == "thorough" else ()):
+        d = {"M_": m, "L_": l, "N_": n, "VRMAX": max(m, l), "VCMAX": max(l, 2)}
+        tag = "%dx%dx%d" % (m, l, n)
+        gs.append(Group(gid="B.djb." + tag, props=list(props), harness="b_djb.c", function="djb_compile + djb_apply_mzd", layer="B", defines=d, tus=TUS, assert_mode=True,
+                        unwind=6, refine=True, spec_unwind=max(m, l, 6) + 2, bounded=True, bound_note="A %dx%d, V %dx%d, all bits symbolic" % (m, l, l, n), shape=tag,
+                        timeout=1500, slots=2, mem_gb=16, solver="--sat-solver cadical"))
+    return gs
+
+
 def groups(tier, seed):
-    return with_canaries(mul_groups(tier)) + with_canaries(layer_s.strassen_groups(["C01", "C11", "C09", "C12"]))
+    return with_canaries(mul_groups(tier)) + with_canaries(djb_groups(tier)) + with_canaries(layer_s.strassen_groups(["C01", "C11", "C09", "C12"]))
